@@ -110,18 +110,17 @@ func gen(r *rand.Rand, id int) Case {
 	set(8, "SELF_SIGNED_CERT", []string{"true", "x"})
 	set(10, "HOST", []string{"127.0.0.1", "::"})
 	set(5, "OMIT_CREATE_TABLES", keys)
-	for k, v := range m { // an empty value is the same as unset for os.Getenv(...) != "": keep some
-		if v == "" && r.Intn(2) == 0 {
-			delete(m, k)
-		}
-	}
 	ks := []string{}
 	for k := range m {
 		ks = append(ks, k)
 	}
-	sort.Strings(ks)
+	sort.Strings(ks) // sorted before any further random choice: the cases depend on the seed only
 	c.Env = []KV{}
 	for _, k := range ks {
+		// an empty value is the same as unset for os.Getenv(...) != "": keep some
+		if m[k] == "" && r.Intn(2) == 0 {
+			continue
+		}
 		c.Env = append(c.Env, KV{k, m[k]})
 	}
 	if r.Intn(4) == 0 {
